@@ -94,13 +94,16 @@ def run_case(c):
             ("form_factor", lambda S_, M_, G_, A_, B_, D_: FormFactor(S_, A_, B_, L, D_)),
         ):
             f = lam(("nf", what, c["phsp"], L), (s, m0, g0, ma, mb, d), lambda: build(s, m0, g0, ma, mb, d).doit())
-            with_symbols = complex(f(fl["s"], fl["m0"], fl["g0"], fl["ma"], fl["mb"], fl["d"]))
+            try:
+                with_symbols = complex(f(fl["s"], fl["m0"], fl["g0"], fl["ma"], fl["mb"], fl["d"]))
+            except ZeroDivisionError:
+                continue  # 0/0 point of the definition itself (pole exactly at a threshold): outside the statement
             try:
                 direct = complex(sp.N(build(q["s"], q["m0"], q["g0"], q["ma"], q["mb"], q["d"]).doit()))
             except Exception as exc:  # noqa: BLE001
                 fails.append((f"numeric_first_exception/{what}", f"{what} with numbers inserted before doit(): {type(exc).__name__}: {exc}"[:250]))
                 continue
-            if with_symbols != with_symbols or direct != direct or abs(with_symbols) == float("inf"):
+            if with_symbols != with_symbols or direct != direct or abs(with_symbols) == float("inf") or abs(direct) == float("inf"):
                 continue
             if not close(with_symbols, direct, 1e-8):
                 fails.append((f"numeric_first/{what}/{c['phsp']}", f"{what}(L={L}) with numbers inserted before doit() = {direct}, "
